@@ -68,6 +68,9 @@ def encode(v):
     tn = type(v).__name__
     if tn == "SimpleNamespace":
         return {"__ns__": {k: encode(x) for k, x in vars(v).items()}}
+    if tn == "Corr" and getattr(v, "N", 1) > 1:
+        # matrix-valued correlator: central values per timeslice (observables are rebuilt with a fixed small noise pattern)
+        return {"__corrmat__": [None if x is None else [[float(o.value) for o in row] for row in x] for x in v.content]}
     if tn == "Corr" and getattr(v, "N", None) == 1:
         return {"__corr__": [None if x is None else float(x[0].value) for x in v.content],
                 "prange": encode(v.prange), "tag": encode(v.tag)}
@@ -107,6 +110,22 @@ def decode(v):
             return types.SimpleNamespace(**{k: decode(x) for k, x in v["__ns__"].items()})
         if "__complex__" in v:
             return complex(*v["__complex__"])
+        if "__corrmat__" in v:
+            import numpy as _np
+            pe = repo_module("pyerrors.obs")
+            co = repo_module("pyerrors.correlators")
+            noise = _np.array([0.01, -0.01, 0.02, -0.02, 0.005, -0.005]) * 1e-3
+            content = []
+            for x in v["__corrmat__"]:
+                if x is None:
+                    content.append(None)
+                    continue
+                m = _np.empty((len(x), len(x[0])), dtype=object)
+                for i, row in enumerate(x):
+                    for j, val in enumerate(row):
+                        m[i, j] = pe.Obs([val + noise], ["e"])
+                content.append(m)
+            return co.Corr(content)
         if "__corr__" in v:
             from contracts.corr import native_corr
             c = native_corr(v["__corr__"], prange=decode(v.get("prange")))
